@@ -1,7 +1,7 @@
 #!/bin/bash
 # usage: collect_seed.sh C12 [C13 ...] : copies round-2 deliveries /tmp/seed/<id>C,<id>D into /verif/seeded and removes the agent's worktree
 for id in "$@"; do
-  for s in C D E F G H; do
+  for s in ${SEED_LETTERS:-G H}; do
     if [ -d /tmp/seed/${id}$s ]; then mkdir -p /verif/seeded/${id}$s; cp -r /tmp/seed/${id}$s/. /verif/seeded/${id}$s/; echo "copied ${id}$s"; fi
   done
   if [ -d /tmp/wt/$id ]; then git -C /repo worktree remove --force /tmp/wt/$id && echo "removed worktree $id"; fi
